@@ -2,6 +2,7 @@ package lint
 
 import (
 	"go/constant"
+	"go/types"
 )
 
 func constInt64(v constant.Value) (int64, bool) {
@@ -9,4 +10,10 @@ func constInt64(v constant.Value) (int64, bool) {
 		return 0, false
 	}
 	return constant.Int64Val(v)
+}
+
+// isUnsignedType: t's underlying type is an unsigned integer.
+func isUnsignedType(t types.Type) bool {
+	b, ok := t.Underlying().(*types.Basic)
+	return ok && b.Info()&types.IsUnsigned != 0
 }
